@@ -17,6 +17,13 @@ def scenarios(rnd, tier):
             l = c03.gen_line(rnd, k, full=True)
             if len(l) < 1500:
                 out.append(l)
+    # inputs of the coverage-guided corpus through the parsers (every allocation index of each is failed below)
+    pool = [e for e in fw.parse_corpus() if 24 <= len(e[1]) <= 200]
+    for rt, b in rnd.sample(pool, min(len(pool), 40 if tier == "quick" else 400)):
+        out.append("%s %d %s" % (rnd.choice(["mp", "mp", "eap", "cls"]), rt, b.hex()))
+    # short systematic call sequences on every kind (every allocation index of each is failed below)
+    al = c03.api_lines(rnd, 0)
+    out += [l for l in rnd.sample(al, min(len(al), 60 if tier == "quick" else 600)) if len(l) < 1500]
     for _ in range(n * 2):
         ops = []
         for _ in range(rnd.choice([2, 4, 8])):
